@@ -54,19 +54,27 @@ Level(n, E) ==
   LET un  == IF "UnaryOp" \in Kinds THEN {UnOp(o, e) : o \in UnOps, e \in E[n - 1]} ELSE {}
       at  == IF "Attribute" \in Kinds THEN {Attr(e, "p") : e \in E[n - 1]} ELSE {}
       c0  == IF "Call" \in Kinds THEN {Call(f, <<>>) : f \in {e \in E[n - 1] : Callable(e)}} ELSE {}
-      lam == IF "Lambda" \in Kinds THEN {Lam("", e) : e \in E[n - 1]} ELSE {}
+      lam == (IF "Lambda" \in Kinds THEN {Lam("", e) : e \in E[n - 1]} ELSE {})
+             \* lambda *a: e  /  lambda **a: e  (same class, a different optional field present)
+             \cup (IF "LambdaStar" \in Kinds
+                   THEN {Node("Lambda", "", <<Node("arguments", "", <<Leaf(k, "a")>>), e>>) :
+                            k \in {"vararg", "kwarg"}, e \in E[n - 1]}
+                   ELSE {})
       two == UNION { LET A == E[s[1]]  B == E[s[2]] IN
                 (IF "BinOp" \in Kinds THEN {BinOp(o, l, r) : o \in BinOps, l \in A, r \in B} ELSE {})
            \cup (IF "BoolOp" \in Kinds THEN {BoolOp(o, <<l, r>>) : o \in BoolOps, l \in A, r \in B} ELSE {})
            \cup (IF "Compare" \in Kinds THEN {Cmp(o, l, r) : o \in CmpOps, l \in A, r \in B} ELSE {})
            \cup (IF "Subscript" \in Kinds THEN {Sub(l, r) : l \in A, r \in B} ELSE {})
            \cup (IF "Tuple" \in Kinds THEN {Tup(<<l, r>>) : l \in A, r \in B} ELSE {})
+           \* one-sided slices l[r:]  l[:r]  l[::r]
+           \cup (IF "Slice" \in Kinds THEN {Sub(l, Node("Slice", v, <<r>>)) : v \in {"l", "u", "s"}, l \in A, r \in B} ELSE {})
            \cup (IF "Call" \in Kinds THEN {Call(f, <<a>>) : f \in {e \in A : Callable(e)}, a \in B} ELSE {})
            \cup (IF "Kw" \in Kinds THEN {Call(f, <<Kw("k", a)>>) : f \in {e \in A : Callable(e)}, a \in B} ELSE {})
               : s \in Splits2(n - 1) }
       three == UNION { LET A == E[s[1]]  B == E[s[2]]  C == E[s[3]] IN
                 (IF "IfExp" \in Kinds THEN {IfExp(a, b, c) : a \in A, b \in B, c \in C} ELSE {})
            \cup (IF "Call" \in Kinds THEN {Call(f, <<a, b>>) : f \in {e \in A : Callable(e)}, a \in B, b \in C} ELSE {})
+           \cup (IF "Slice" \in Kinds THEN {Sub(a, Node("Slice", "lu", <<b, c>>)) : a \in A, b \in B, c \in C} ELSE {})
            \cup (IF "BoolOp3" \in Kinds THEN {BoolOp(o, <<a, b, c>>) : o \in BoolOps, a \in A, b \in B, c \in C} ELSE {})
               : s \in Splits3(n - 1) }
   IN un \cup at \cup c0 \cup lam \cup two \cup three
@@ -112,8 +120,11 @@ StmtPool == IF Sim THEN {} ELSE SimpleStmts(MaxExprSize) \cup CompoundStmts
 FocusTree(m, f) == IF f.n = 0 THEN At(m, f.bp)
                    ELSE Block(SubSeq(At(m, f.bp).c, f.i, f.i + f.n - 1))
 
+\* a slice is an expression node for the interpreter (and for rope's wildcards), but it cannot be
+\* written as a pattern of its own nor be replaced by a wildcard in pattern text
+PatExprPaths(t) == {p \in ExprPaths(t) : At(t, p).k # "Slice"}
 Foci(m) ==
-     (IF "expr" \in FocusKinds THEN {[bp |-> p, i |-> 0, n |-> 0] : p \in ExprPaths(m)} ELSE {})
+     (IF "expr" \in FocusKinds THEN {[bp |-> p, i |-> 0, n |-> 0] : p \in PatExprPaths(m)} ELSE {})
 \cup {f \in {[bp |-> p, i |-> i, n |-> n] : p \in BlockPaths(m), i \in 1..MaxStmts, n \in 1..2} :
         /\ "stmts" \in FocusKinds
         /\ f.i + f.n - 1 <= Len(At(m, f.bp).c)
@@ -124,7 +135,7 @@ Disjoint(p, q) == ~IsPrefix(p, q) /\ ~IsPrefix(q, p)
 
 \* choices of wildcards: a set of records [q, w] (path in the focus tree, name)
 WildChoices(F) ==
-  LET EP == ExprPaths(F)
+  LET EP == PatExprPaths(F)
       one(q) == {<<[q |-> q, w |-> "x"]>>, <<[q |-> q, w |-> "?x"]>>}
                 \cup (IF At(F, q).k = "Name" THEN {<<[q |-> q, w |-> At(F, q).v]>>} ELSE {})
       two(q, r) ==   \* q before r in source order
@@ -444,8 +455,12 @@ TargetPos(p) ==
        IN IF pk \in {"Assign", "AugAssign"} THEN p[Len(p)] = 1
           ELSE IF pk \in {"Tuple", "List"} THEN TargetPos(par)
           ELSE FALSE
+SliceInvolved ==
+  \E m \in AllMatches : \/ (m.n = 0 /\ MatchTree(m).k = "Slice")
+                        \/ \E w \in WildNames(pat) : SigmaOf(m)[w].k = "Slice"
 Legal(goal) ==
-  IF IsStmtPat THEN TRUE
+  IF SliceInvolved /\ goal # pat THEN FALSE     \* a slice can only stand right inside a subscript
+  ELSE IF IsStmtPat THEN TRUE
   ELSE \A m \in AllMatches :
          TargetPos(m.bp) =>
             LET r == Subst(goal, SigmaOf(m))
